@@ -228,5 +228,11 @@ func actNewMessage(e *Env, a J) J {
 	m := message.NewMessage(u64of(gox(c, "ispi")), u64of(gox(c, "rspi")), uint8(gi(c, "xt")), gb(c, "response"), gb(c, "initiator"),
 		u32of(gox(c, "mid")), b.cont)
 	b.msgs = append(b.msgs, m)
-	return J{"msg": projMsg(m), "isresp": m.IsResponse(), "isinit": m.IsInitiator()}
+	// the header constructor itself, with a next-payload value and payload octets of the caller's
+	pb := []byte{0xde, 0xad, 0xbe, 0xef}
+	h := message.NewHeader(u64of(gox(c, "ispi")), u64of(gox(c, "rspi")), uint8(gi(c, "xt")), gb(c, "response"), gb(c, "initiator"),
+		u32of(gox(c, "mid")), uint8(gi(c, "np")), pb)
+	hdr := J{"ispi": octOf(be(h.InitiatorSPI, 8)), "rspi": octOf(be(h.ResponderSPI, 8)), "maj": int(h.MajorVersion), "min": int(h.MinorVersion), "xt": int(h.ExchangeType),
+		"flags": int(h.Flags), "mid": octOf(be(uint64(h.MessageID), 4)), "np": int(h.NextPayload), "pb": string(h.PayloadBytes) == "\xde\xad\xbe\xef"}
+	return J{"msg": projMsg(m), "isresp": m.IsResponse(), "isinit": m.IsInitiator(), "hdr": hdr}
 }
